@@ -19,12 +19,16 @@ func init() {
 // twin builds two identical worlds (same symbolic pre-state) using the real
 // defaults.Responder / defaults.Redirector over a data-recording renderer.
 type twin struct {
-	f  [2]*flow
-	rd [2]*dataRenderer
+	f     [2]*flow
+	rd    [2]*dataRenderer
+	redir string
 }
 
 func newTwin(o flowOpts, api bool) *twin {
 	t := &twin{}
+	if verif.Choice("redirParam", 2) == 1 {
+		t.redir = "/back"
+	}
 	for i := 0; i < 2; i++ {
 		if i == 1 {
 			verif.ResetLabels()
@@ -54,6 +58,9 @@ func (t *twin) run(i int, route string, v *world.Values, api bool) (observation,
 	f := t.f[i]
 	f.vals = v
 	r := world.Request("POST", route[len("POST "):], "")
+	if t.redir != "" {
+		r.Form[authboss.FormValueRedirect] = []string{t.redir} // a local return target supplied by the client
+	}
 	if api {
 		r.Header.Set("Content-Type", "application/json")
 	}
